@@ -14,7 +14,7 @@ pub fn spec() -> PropSpec {
     PropSpec {
         id: "C12",
         level: "exploration",
-        rule: "access ops: all solution sets of 1..3 solutions over predicate-data shapes {[],[[]],[[1]],[[1,2,3]],[[1],[2,3]]} x every index x operands (slot, offset, len) in {-1,0,1,2,3,4,MAX}^3; PredicateExists: every set x {hash of each solution's documented pre-image, one word perturbed, slots without length prefix, contract/predicate swapped}; Sha256: every byte length 0..=72 (thorough 0..=264) x 3 fill patterns plus bad lengths; VerifyEd25519: 3 keys x message lengths 0..=33 x {valid, every single-byte corruption of signature/key/message, wrong length word}, non-point key, small-order key with R=identity,s=0; RecoverSecp256k1: 3 keys x 3 digests x recovery ids {-1,0,1,2,3,4,2^31} x {valid, single-bit flips of the signature (quick: every 8th bit), five zero words, r=0, r>=n}. Oracle: real sync::step_op vs the reference step (direct slicing, sha2, ed25519-dalek, essential-sign) on the complete stack; plus essential_hash::hash_bytes/hash_words agreement. non-trivial = the real op succeeded; distinct by (solutions, index, stack, op)",
+        rule: "access ops: all solution sets of 1..3 solutions over predicate-data shapes {[],[[]],[[1]],[[1,2,3]],[[1],[2,3]]} x every index x operands (slot, offset, len) in {-1,0,1,2,3,4,MAX}^3; PredicateExists: every set x {hash of each solution's documented pre-image, one word perturbed, slots without length prefix, contract/predicate swapped}; Sha256: every byte length 0..=72 (thorough 0..=264) x 3 fill patterns plus bad lengths; VerifyEd25519: 3 keys x message lengths 0..=33 (thorough 0..=72) x {valid, every single-byte corruption of signature/key/message, wrong length word}, non-point key, small-order key with R=identity,s=0; RecoverSecp256k1: 3 keys x 3 digests x recovery ids {-1,0,1,2,3,4,2^31} x {valid, single-bit flips of the signature (quick: every 8th bit), five zero words, r=0, r>=n}. Oracle: real sync::step_op vs the reference step (direct slicing, sha2, ed25519-dalek, essential-sign) on the complete stack; plus essential_hash::hash_bytes/hash_words agreement. non-trivial = the real op succeeded; distinct by (solutions, index, stack, op)",
         assumptions: &["keys, digests and messages come from small fixed pools: structural dimensions exhausted, 2^256 value spaces not"],
         run,
         replay,
@@ -200,7 +200,7 @@ fn ed(cfg: &RunCfg, rep: &mut Report) {
     for k in 0..3u8 {
         let sk = SigningKey::from_bytes(&[k.wrapping_mul(71).wrapping_add(3); 32]);
         let pk = sk.verifying_key().to_bytes();
-        for len in 0..=33usize {
+        for len in 0..=(if cfg.tier == Tier::Thorough { 72usize } else { 33 }) {
             n += 1;
             if !cfg.mine(n) {
                 continue;
